@@ -7,11 +7,15 @@ package checks
 //   ir      ir.Module.Types: member offsets, struct spans, array strides/lengths, scalar widths, ir.TypeSize
 //   spirv   Offset / ArrayStride / MatrixStride decorations and type shapes (v1.0 and v1.4)
 //   msl     the struct declarations of the emitted text laid out by the C++ rules of internal/mslx
-//   hlsl    uniform buffers: the cbuffer laid out by the packing rules of internal/hlslx (32-bit types only)
-//   glsl    interface blocks laid out by the std430/std140 calculator of internal/glslx
+//   hlsl    uniform buffers: the cbuffer laid out by the packing rules of internal/hlslx (32-bit types only);
+//           storage buffers: the byte ranges of the constant-address Load/Store accesses (c07x_hlsl.go)
+//   glsl    interface blocks laid out by the std430/std140 calculator of internal/glslx (declarations
+//           only: glslx.ParseLayout, which also lays out float16_t / f16vecN / f16matCxR)
 //
-// A construct a reader does not model (HLSL half types, GLSL float16_t, members a backend splits or
-// renames) is counted as skipped, never as a violation.
+// A construct a reader does not model (HLSL half types in a cbuffer, members a backend splits or
+// renames) is counted as skipped, never as a violation. When the IR layout of a case already
+// differs from the WGSL layout, that is the violation reported for the case and the backends (which
+// take their offsets from the IR) are not judged for it.
 
 import (
 	"fmt"
